@@ -167,6 +167,26 @@ func hostMutations(o proto4.Object, raw bool) []hostMut {
 			i := e.Intn(len(m.Accepted))
 			m.Accepted[i] = !m.Accepted[i]
 			return true
+		}}, hostMut{"accepted-none-with-arbitrary-root", func(e *sim.Env, c *c10Rig, o proto4.Object, raw []byte) bool {
+			// a coherent lie: "I accepted nothing" - and a new root all the same
+			m := o.(*proto4.RPCAppendSectorsResponse)
+			for i := range m.Accepted {
+				m.Accepted[i] = false
+			}
+			switch e.Intn(3) {
+			case 0:
+				copy(m.NewMerkleRoot[:], e.Bytes(32))
+			case 1:
+				m.NewMerkleRoot = types.Hash256{}
+			case 2:
+				// the root of the contract with its last sector dropped
+				if rs := c.prevRoots; len(rs) > 0 {
+					m.NewMerkleRoot = proto4.MetaRoot(rs[:len(rs)-1])
+				} else {
+					m.NewMerkleRoot = testSector(5).root
+				}
+			}
+			return true
 		}}, hostMut{"accepted-count", func(e *sim.Env, c *c10Rig, o proto4.Object, raw []byte) bool {
 			m := o.(*proto4.RPCAppendSectorsResponse)
 			if e.Chance(1, 2) && len(m.Accepted) > 0 {
@@ -279,6 +299,7 @@ type c10Rig struct {
 	otherSig    types.Signature
 	replTarget  types.Currency
 	// parameters of the read in flight (for coherent lies about it)
+	prevRoots        []types.Hash256 // the contract's roots before the exchange in flight
 	readSector       int
 	readOff, readLen uint64
 }
@@ -365,6 +386,7 @@ func (c *c10Rig) calls() []c10Call {
 		}},
 		{"append", proto4.RPCAppendSectorsID, func(c *c10Rig, mutated string) error {
 			prevRoots, prev := c.hostRoots(), c.contract.Revision
+			c.prevRoots = prevRoots
 			roots := []types.Hash256{testSector(e.Intn(8)).root, testSector(e.Intn(8)).root}
 			if e.Chance(1, 3) {
 				var r types.Hash256
@@ -630,7 +652,7 @@ func runC10(e *sim.Env) {
 func init() {
 	register(&Prop{
 		ID: "C10", Run: runC10, Quick: 120, Thorough: 3000, Level: "fault_enumeration",
-		Rule:        "each run walks a complete table: for every renter RPC (read, write, verify, append, free, sector roots, fund accounts, replenish accounts, latest revision, form contract) an undisturbed exchange is probed for its host->renter messages, then the RPC is repeated once per (message, field, corruption) with the real server behind a typed relay acting as the Byzantine host: proofs and root lists flipped / truncated / extended / replaced by values of another exchange, lengths and counts changed, data bytes flipped or replaced by another sector's, Merkle roots flipped or left unchanged, host signatures flipped / replayed / genuine-but-over-something-else, accepted flags flipped, deposits above the target or inflated, a shorter read answered coherently (shorter length with its own genuine proof), host inputs dropped, final transaction altered or empty; every corruption of a message that the renter answers with its signature is run twice: in front of the honest server, and from a host that then countersigns whatever revision the renter signed; concrete values (offsets, indices, bits) are drawn; oracle: the call returns an error or the binding predicate holds against the harness's ground truth (sector bytes, real roots, list model, host key, price table); distinct = (rpc, message, corruption, outcome); all runs non-trivial",
+		Rule:        "each run walks a complete table: for every renter RPC (read, write, verify, append, free, sector roots, fund accounts, replenish accounts, latest revision, form contract) an undisturbed exchange is probed for its host->renter messages, then the RPC is repeated once per (message, field, corruption) with the real server behind a typed relay acting as the Byzantine host: proofs and root lists flipped / truncated / extended / replaced by values of another exchange, lengths and counts changed, data bytes flipped or replaced by another sector's, Merkle roots flipped or left unchanged, host signatures flipped / replayed / genuine-but-over-something-else, accepted flags flipped or all cleared together with an arbitrary new root, deposits above the target or inflated, a shorter read answered coherently (shorter length with its own genuine proof), host inputs dropped, final transaction altered or empty; every corruption of a message that the renter answers with its signature is run twice: in front of the honest server, and from a host that then countersigns whatever revision the renter signed; concrete values (offsets, indices, bits) are drawn; oracle: the call returns an error or the binding predicate holds against the harness's ground truth (sector bytes, real roots, list model, host key, price table); distinct = (rpc, message, corruption, outcome); all runs non-trivial",
 		Real:        []string{"rhp4 RPC* client functions (the code under test)", "rhp4.Server as the honest core of the Byzantine host", "wallets, chain.Manager, reference contractor and sector store"},
 		Stub:        []string{"transport: simrhp typed relay rewriting host->renter messages", "disk: simdisk.DB"},
 		Assumptions: []string{"renew / refresh responses are corrupted in C16", "account balances and settings are unauthenticated by design and carry no binding claim"},
